@@ -1,13 +1,17 @@
 #!/bin/bash
-# copy finished sub-agent outputs /tmp/wt/<ID>/_out/<k> to /verif/seeded/<ID>-<k> and evaluate the new ones
+# copy finished sub-agent outputs /tmp/wt/<ID>/_out/<k> to /verif/seeded/<ID>-<round><k> and evaluate the new ones
+# usage: collect_seeded.sh <round-tag e.g. r2-> ids...
 cd /verif
+tag=$1; shift
 for id in "$@"; do
-  for k in 1 2; do
+  for k in 1 2 3; do
     src=/tmp/wt/$id/_out/$k
-    dst=seeded/$id-$k
+    dst=seeded/$id-$tag$k
     if [ -f $src/patch.diff ] && [ -f $src/demo.py ] && [ -f $src/meta.json ] && [ ! -d $dst ]; then
       mkdir -p $dst; cp $src/patch.diff $src/demo.py $src/meta.json $dst/
-      tools/seeded.py $dst 2>&1 | tail -12
+      tools/seeded.py $dst 2>&1 | /venv/bin/python -c "
+import sys,json
+d=json.load(sys.stdin); print(d['dir'].split('/')[-1], 'confirmed' if d['confirmed'] else 'NOT-CONFIRMED', 'detected_by', d['detected_by'])"
     fi
   done
 done
